@@ -431,6 +431,7 @@ func init() {
 					}
 					if e.target.GetValue() == valOf(n) {
 						fail("C09.invalidated-value-kept", "released() was called for value %d but at quiescence it is still in the target container", valOf(n))
+						fail("C10.invalidated-value-served", "released() was called for value %d (root context cancelled from outside) but it is still the current value: Wait / Resolve / Access keep handing it out and nobody holding it is told", valOf(n))
 					}
 				}
 			}
@@ -538,6 +539,93 @@ func init() {
 			e.setContext(nil)
 			vsched.Settle()
 			e.finalRelease()
+		},
+	})
+	eng.Register(&eng.Scenario{
+		Name: "refcount-addref-invalidate", Props: []string{"C09", "C10"}, MustFinish: true, ObsNames: stdObs,
+		Doc:   "RefCount with a resolved value and a held reference: T1 = AddRef(callback) and keep it  ||  T2 = released() for that value (it is dropped and resolved afresh; or SetContext(fresh), choice): at quiescence the new reference's last callback is the latest result - a snapshot taken when it was added may not arrive after the replacement; no reference is told a new result directly after another without a drop in between",
+		Quick: eng.Bounds{PB: 2}, Thorough: eng.Bounds{PB: 4},
+		Body: func() {
+			e := newRC2(bg, vsched.Choose(2) == 1, func(int) int { return mValue })
+			r0 := e.rc.AddRef(refCb(0))
+			vsched.CtrSet(rcRefHeld+0, 1)
+			vsched.CtrAdd(rcHeld, 1)
+			vsched.Settle()
+			how := vsched.Choose(2)
+			gRel := &vsched.Gate{}
+			T("A", func() {
+				r1 := e.rc.AddRef(refCb(1))
+				vsched.CtrSet(rcRefHeld+1, 1)
+				vsched.CtrAdd(rcHeld, 1)
+				gRel.Wait()
+				vsched.CtrSet(rcRefHeld+1, 0)
+				vsched.CtrAdd(rcHeld, -1)
+				r1.Release()
+			})
+			T("I", func() {
+				if f, ok := vsched.GetCell(50).(func()); ok && how == 0 {
+					vsched.CtrSet(rcInv0+1, 1)
+					f()
+				} else {
+					e.setContext(context.WithValue(bg, ctxKey{}, 2))
+				}
+			})
+			vsched.Settle()
+			e.quiescentOracle([]int{0, 1})
+			gRel.Open()
+			vsched.Settle()
+			vsched.CtrSet(rcRefHeld+0, 0)
+			vsched.CtrAdd(rcHeld, -1)
+			r0.Release()
+			vsched.Settle()
+			e.finalRelease()
+			e.setContext(nil)
+			vsched.Settle()
+			e.finalRelease()
+		},
+	})
+	eng.Register(&eng.Scenario{
+		Name: "refcount-dead-context", Props: []string{"C08", "C09"}, MustFinish: true, ObsNames: stdObs,
+		Doc:   "RefCount (keep-unreferenced f/t) with a resolved value and a held reference (or, with keep, none): SetContext with a context that is already cancelled is a context change like any other: it reports true, and by quiescence the value resolved under the previous context has been released exactly once, is gone from the target and the reference was told so",
+		Quick: eng.Bounds{PB: 2}, Thorough: eng.Bounds{PB: 3},
+		Body: func() {
+			keep := vsched.Choose(2) == 1
+			e := newRC2(bg, keep, func(int) int { return mValue })
+			ref := e.rc.AddRef(refCb(0))
+			vsched.CtrSet(rcRefHeld+0, 1)
+			vsched.CtrAdd(rcHeld, 1)
+			vsched.Settle()
+			if keep && vsched.Choose(2) == 1 {
+				vsched.CtrSet(rcRefHeld+0, 0)
+				vsched.CtrAdd(rcHeld, -1)
+				ref.Release()
+				ref = nil
+				vsched.Settle()
+			}
+			dead, cancel := context.WithCancel(context.WithValue(bg, ctxKey{}, 7))
+			cancel()
+			vsched.CtrAdd(rcCtxChange, 1)
+			if !e.rc.SetContext(dead) {
+				fail("C09.setcontext-flag", "SetContext(a different, already cancelled context) returned false")
+			}
+			vsched.CtrAdd(rcCtxDone, 1)
+			vsched.Settle()
+			if n := vsched.Ctr(rcRel0 + 1); n != 1 {
+				fail("C08.not-released", "value 101 was resolved under the previous context; after SetContext(other context, already cancelled) and quiescence its release function ran %d times", n)
+			}
+			if e.target.GetValue() == valOf(1) {
+				fail("C08.exposed-after-release", "the target still holds value 101 after the context it was resolved under was replaced")
+			}
+			if ref != nil && vsched.Ctr(rcLastRes+0) == 2 && int(vsched.Ctr(rcLastVal+0)) == valOf(1) {
+				fail("C08.ref-not-told", "the held reference was last told (true,101) although the context changed")
+			}
+			if ref != nil {
+				vsched.CtrSet(rcRefHeld+0, 0)
+				vsched.CtrAdd(rcHeld, -1)
+				ref.Release()
+			}
+			e.rc.ClearContext()
+			vsched.Settle()
 		},
 	})
 	eng.Register(&eng.Scenario{
